@@ -55,6 +55,8 @@ def derive(plan):
         elif op == "scandir" and q != plan["in"]:
             cands.append({"kind": "scandir_eacces", "path": q})
         for f in cands:
+            if (f.get("path") or "").startswith(".systmp/netconan-") and f["path"].endswith(".cfg"):
+                continue        # the harness's own configuration file (`-c`): a fault there rejects the command line, C19's subject
             key = core.canon(f)
             if key in seen:
                 continue
